@@ -32,20 +32,21 @@ const (
 
 // Result is what one simulated run produced.
 type Result struct {
-	P            *plat.Sim
-	EndClass     string
-	EndMsg       string
-	ParseErr     string // parser.Errors text, or recovered parser panic
-	Formatted    string
-	Accepted     bool
-	HostPanic    string // recovered Go panic value
-	TopFrame     string // first evy frame of the panic stack
-	EvalEnd      string // class after Eval only (before events)
-	EventsDone   int
-	EventErrs    []string
-	MapDigest    uint64
-	MapDecisions int
-	Stage        string // where the run ended: parse|eval|event:<n>
+	P                   *plat.Sim
+	EndClass            string
+	EndMsg              string
+	ParseErr            string // parser.Errors text, or recovered parser panic
+	Formatted           string
+	FormatRepeatDiffers bool
+	Accepted            bool
+	HostPanic           string // recovered Go panic value
+	TopFrame            string // first evy frame of the panic stack
+	EvalEnd             string // class after Eval only (before events)
+	EventsDone          int
+	EventErrs           []string
+	MapDigest           uint64
+	MapDecisions        int
+	Stage               string // where the run ended: parse|eval|event:<n>
 }
 
 // Trace renders the effect trace plus terminal line.
@@ -178,12 +179,25 @@ func RunL1(sc *Scenario, o L1Opts) *Result {
 	}
 	if o.WantFormat {
 		func() {
+			first := false
 			defer func() {
 				if p := recover(); p != nil {
+					if first {
+						// the first call worked, asking again crashed
+						res.Formatted += "\nFORMAT-REPEAT-DIFFERS:\nFORMAT-CRASH: " + fmt.Sprint(p)
+						res.FormatRepeatDiffers = true
+						return
+					}
 					res.Formatted = "FORMAT-CRASH: " + fmt.Sprint(p)
 				}
 			}()
 			res.Formatted = prog.Format()
+			first = true
+			// formatting is a function of the source: asking again must give the same text
+			if again := prog.Format(); again != res.Formatted {
+				res.Formatted += "\nFORMAT-REPEAT-DIFFERS:\n" + again
+				res.FormatRepeatDiffers = true
+			}
 		}()
 	}
 	if o.ParseOnly {
